@@ -553,6 +553,7 @@ type pipeT struct {
 	ledger map[int]*ansRec
 	// wireUsed: the last request entered as a wire-born one
 	wireUsed bool
+	handlers []middleware.Handler // when set: the chain of the next run instead of edns, cache, upstream
 	// formerr: the raw packet did not decode; rawFallback: it took the decoded fallback
 	formerr, rawFallback bool
 }
@@ -617,7 +618,11 @@ func (p *pipeT) run(c clientT, proto string, cr *cliReq) *dns.Msg {
 		kind, proto = proto[0], proto[1:]
 	}
 	w := mock.NewWriter(proto, c.hostport())
-	ch := middleware.NewChain([]middleware.Handler{p.ed, p.ca, p.st})
+	hs := []middleware.Handler{p.ed, p.ca, p.st}
+	if p.handlers != nil {
+		hs = p.handlers
+	}
+	ch := middleware.NewChain(hs)
 	p.wireUsed, p.formerr = false, false
 	req := cr.msg
 	switch kind {
@@ -1325,6 +1330,37 @@ func exec(op string) vlib.Res {
 			or = fail("denial/store-get/ecs-or-cd-tree-consumed-shared-denial", "cd=%v optecs=%v mark=%v bypass=%v", cd, optEcs, mark, byp)
 		}
 		return vlib.Res{Impl: "hit=" + vlib.B(hit), Oracle: or, Tags: "nt"}
+	case "pipe reject":
+		// pipe reject <client> <proto> <ahead|behind> <copts>: a handler in front of /
+		// behind edns turns the query away with Chain.CancelWithRcode(REFUSED)
+		p := pipe
+		c, proto := parseClient(a[0]), a[1]
+		cr := buildClient("rej.c19.test.", dns.TypeA, false, false, a[3])
+		rej := middleware.HandlerFunc(func(_ context.Context, ch *middleware.Chain) { ch.CancelWithRcode(dns.RcodeRefused, false) })
+		p.handlers = []middleware.Handler{rej, p.ed, p.ca, p.st}
+		if a[2] == "behind" {
+			p.handlers = []middleware.Handler{p.ed, rej}
+		}
+		reply := p.run(c, proto, cr)
+		p.handlers = nil
+		if p.formerr {
+			return vlib.Res{Impl: "formerr", Oracle: "ok", Tags: "raw-undecodable"}
+		}
+		if reply == nil {
+			return vlib.Res{Impl: "noreply", Oracle: fail("pipe/no-reply", "")}
+		}
+		ropt := "noopt"
+		if o := reply.IsEdns0(); o != nil {
+			parts := strings.Split(renderOpts(o.Option, false), ",")
+			sort.Strings(parts)
+			ropt = strings.Join(parts, ",")
+		}
+		or := "ok"
+		if v := checkReply(allReplyOpts(reply)); v != "" {
+			or = strings.Replace(v, "sig=reply/", "sig=reply/rejection-"+a[2]+"-of-edns/", 1)
+		}
+		p.rawFallback = false
+		return vlib.Res{Impl: fmt.Sprintf("rcode=%d ropt=%s", reply.Rcode, ropt), Oracle: or, Tags: "nt,rejection-" + a[2]}
 	case "pipe badvers":
 		return pipeBadVers(a)
 	case "pipe nx":
